@@ -5,4 +5,5 @@ MCCls == [o \in Oids |-> IF o = 1 THEN "merge" ELSE "plain"]
 MCClsAll == [o \in Oids |-> "merge"]
 MCClsPlain == [o \in Oids |-> "plain"]
 NoRefs == {{}}
+FewRefs == {{}, {1} \cap Oids}
 =============================================================================
